@@ -81,6 +81,9 @@ class Handler(object):
   def join(self, s, t, n, f):
     return self.echo(s)
 
+  def whoami(self):
+    return self.echo('%s|' % (self.req.call_id,))
+
   def poke(self, s):
     self._do(s)
     return None
@@ -177,6 +180,9 @@ class BaseServer(object):
       r.method, r.args = None, None
       self.errors.append('undecodable call on conn %s: %r' % (conn.id, e))
     r.call_id = call_id_of(r.method, r.args) if r.args is not None else None
+    if r.call_id is None and r.method == 'whoami' and r.args is not None:
+      # a call without arguments cannot carry its id in-band: at most one per scenario
+      r.call_id = getattr(self.world, 'noarg_call_id', None)
     self.requests.append(r)
     self.loop.note('srv%d.req' % self.endpoint.index, '%s %s' % (conn.id, r.call_id))
     return r
